@@ -92,9 +92,11 @@ pub struct BSheet {
     pub preamble: bool,
     /// the byte after the 24-bit iStyleRef of every Cell structure: bit 0 fPhShow (show phonetic), 7 reserved bits
     pub cell_flags: u8,
+    /// BrtWsDim names only the first used row and two columns (advisory, out of date) instead of the used range
+    pub stale_dim: bool,
 }
 impl BSheet {
-    pub fn new(name: &str, items: Vec<BItem>) -> BSheet { BSheet { name: name.into(), state: 0, dir: "worksheets", items, preamble: true, cell_flags: 0 } }
+    pub fn new(name: &str, items: Vec<BItem>) -> BSheet { BSheet { name: name.into(), state: 0, dir: "worksheets", items, preamble: true, cell_flags: 0, stale_dim: false } }
 }
 
 #[derive(Clone, Debug, Default)]
@@ -129,6 +131,7 @@ pub fn sheet_bin(s: &BSheet) -> Vec<u8> {
     let cells: Vec<(u32, u32)> = s.items.iter().filter_map(|i| if let BItem::Cell { row, col, .. } = i { Some((*row, *col)) } else { None }).collect();
     let (r0, r1) = (cells.iter().map(|c| c.0).min().unwrap_or(0), cells.iter().map(|c| c.0).max().unwrap_or(0));
     let (c0, c1) = (cells.iter().map(|c| c.1).min().unwrap_or(0), cells.iter().map(|c| c.1).max().unwrap_or(0));
+    let (r1, c1) = if s.stale_dim { (r0, (c0 + 1).min(16383)) } else { (r1, c1) };
     let mut d = vec![]; d.extend(r0.to_le_bytes()); d.extend(r1.to_le_bytes()); d.extend(c0.to_le_bytes()); d.extend(c1.to_le_bytes());
     o.extend(rec(0x94, &d));
     if s.preamble {
